@@ -28,7 +28,7 @@ let entries (s : string) : (string * string) list =
 (* ---- end-to-end cases (C18Str.v): Unicode range tables as in the c02 driver ----
      U <name> lo-hi lo-hi ...                  load a table (ws | num | alpha | ling); prints "U <name> <#ranges>"
      STR | src cps | chars | canon | meta      make_title_case_str  -> "O cps" | "P" | "?"
-     CLS | src cps                             "C <plain_text> <dotted_text>" (classes of the theorems, as 0/1)
+     CLS | src cps                             "C <plain_text> <dotted_text> <alnum_text>" (classes of the theorems, as 0/1)
      TOK | src cps | meta                      Document::new_from_vec(.., PlainEnglish, dict).get_tokens()
                                                -> "T s e kind meta ..." | "P" *)
 let tables : (string, (int * int) array) Hashtbl.t = Hashtbl.create 8
@@ -80,9 +80,10 @@ let () =
               | Panic _ -> print_endline "P"
               | Ok t -> print_endline (String.trim ("O " ^ line_of_text t)))
     | ["CLS"; src] ->
-        (* the classes of the theorems (C18LexStable.plain_text, C18LexDots.dotted_text) on the dumped tables *)
+        (* the classes of the theorems (C18LexStable.plain_text, C18LexDots.dotted_text, C18LexAlnum.alnum_text) on the dumped tables *)
         let u = uni_now () and t = text_of_line src in
-        Printf.printf "C %d %d\n" (if plain_text u t then 1 else 0) (if dotted_text u t then 1 else 0)
+        Printf.printf "C %d %d %d\n" (if plain_text u t then 1 else 0) (if dotted_text u t then 1 else 0)
+          (if alnum_text u t then 1 else 0)
     | ["TOK"; src; meta] ->
         (match run_document_tokens (uni_now ()) (meta_of meta) (text_of_line src) with
          | Panic _ -> print_endline "P"
